@@ -222,25 +222,21 @@ def check_raw_copies(prop: str, res: Result, repo: Repo, want=("method", "append
             else:
                 res.fail(rule, finding(prop, rule, m, m.node, "Candle.raw_copy must deep-copy the candle, restore its raw values and clear saved values, tag and readings", construct="Candle.raw_copy body"))
     if "append" in want:
-        ap = repo.method("hexital.core.candle_manager", "CandleManager", "append")
-        ext = [c for c in calls_in(ap.node) if call_target(c) == "self.candles.extend"]
-        branch = [n for n in ast.walk(ap.node) if isinstance(n, ast.If) and "DEFAULT_CANDLES" in ast.unparse(n.test)]
-        ok = False
-        if len(ext) == 2 and len(branch) == 1:
-            from .structure import canon_cond
+        from .props.c19 import eval_append
 
-            tst, flipped = canon_cond(branch[0].test)
-            default_first = (isinstance(tst, ast.Compare) and isinstance(tst.ops[0], ast.Eq)) != flipped
-            d_arm, o_arm = (branch[0].body, branch[0].orelse) if default_first else (branch[0].orelse, branch[0].body)
-            o_calls = [c for st in o_arm for c in calls_in(st) if call_target(c) == "self.candles.extend"]
-            d_calls = [c for st in d_arm for c in calls_in(st) if call_target(c) == "self.candles.extend"]
-            # both arms extend from the same local: the normalised list of incoming candles
-            src = ast.unparse(d_calls[0].args[0]) if len(d_calls) == 1 and d_calls[0].args and isinstance(d_calls[0].args[0], ast.Name) else None
-            ok = len(o_calls) == 1 and len(d_calls) == 1 and src is not None and _is_raw_copy_comp(o_calls[0].args[0], src)
-        if ok:
-            res.ok(rule, {"site": ap.where, "why": "the default manager adopts the candles; every other manager extends with candle.raw_copy() of each"}, nontrivial="append:raw_copy")
-        else:
-            res.fail(rule, finding(prop, rule, ap, ap.node, "a non-default manager must extend its list with candle.raw_copy() of every appended candle (fresh, un-converted copies); the default manager adopts the originals", construct="CandleManager.append: copies for non-default managers"))
+        ap = repo.method("hexital.core.candle_manager", "CandleManager", "append")
+        n_ok = 0
+        for kind, label, status, msg in eval_append(repo):
+            if "Candle" not in label:
+                continue  # (the encodings are R-DISPATCH's business)
+            if status == "ok":
+                n_ok += 1
+            elif status == "undecided":
+                res.errors.append(f"{ap.where} {rule} CandleManager.append: cannot evaluate what is stored for {label} ({msg}); the rule cannot decide it")
+            else:
+                res.fail(rule, finding(prop, rule, ap, ap.node, msg + " (a non-default manager must hold fresh, un-converted copies; the default manager adopts the originals)", construct=f"CandleManager.append: {label} ({kind})"))
+        if n_ok:
+            res.ok(rule, {"site": ap.where, "why": f"{n_ok} scenarios: the default manager adopts the candles; every other manager extends with candle.raw_copy() of each"}, nontrivial="append:raw_copy")
     if "validate" in want:
         vi = repo.method("hexital.core.hexital", "Hexital", "_validate_indicators")
         loops = [n for n in vi.node.body if isinstance(n, ast.For)]
